@@ -695,11 +695,20 @@ type PropertyExpressionVisitor struct {
 }
 
 func (s *PropertyExpressionVisitor) EnterOC_Atom(ctx *parser.OC_AtomContext) {
-	s.ctx.Enter(&AtomVisitor{})
+	if !HasTokens(ctx, parser.CypherLexerCOUNT) {
+		s.ctx.Enter(&AtomVisitor{})
+	}
 }
 
 func (s *PropertyExpressionVisitor) ExitOC_Atom(ctx *parser.OC_AtomContext) {
-	s.PropertyLookup.Atom = s.ctx.Exit().(*AtomVisitor).Atom
+	if HasTokens(ctx, parser.CypherLexerCOUNT) {
+		s.PropertyLookup.Atom = &cypher.FunctionInvocation{
+			Name:      "count",
+			Arguments: []cypher.Expression{cypher.GreedyRangeQuantifier},
+		}
+	} else {
+		s.PropertyLookup.Atom = s.ctx.Exit().(*AtomVisitor).Atom
+	}
 }
 
 func (s *PropertyExpressionVisitor) EnterOC_PropertyKeyName(ctx *parser.OC_PropertyKeyNameContext) {
